@@ -29,6 +29,7 @@ type script struct {
 	DeclCL    int      `json:"declared_length,omitempty"` // > len(Served): Content-Length declared, Served written, stream ended cleanly short of it
 	Trailer   string   `json:"trailer,omitempty"`         // value of the X-Sum trailer field sent after the body (no Content-Length then)
 	Lenient   bool     `json:"error_tolerated,omitempty"` // a stream outside what the content coding allows (zstd window above 8 MB, RFC 9659): payload or read error
+	Interim   int      `json:"interim_status,omitempty"`  // an informational response (103 Early Hints) is sent before the final one
 	DropFirst bool     `json:"drop_first,omitempty"`      // h1: the first attempt of an exchange is read and the connection closed unanswered
 	CRange    string   `json:"content_range,omitempty"`   // Content-Range header (206)
 	refTable  map[string]refOut
@@ -104,6 +105,11 @@ func (o *origins) handler(w http.ResponseWriter, r *http.Request) {
 		h.Set("Content-Length", strconv.Itoa(s.DeclCL))
 	} else if s.SetCL || r.Method == "HEAD" {
 		h.Set("Content-Length", strconv.Itoa(len(s.Served)))
+	}
+	if s.Interim != 0 {
+		h.Set("Link", "</style.css>; rel=preload; as=style")
+		w.WriteHeader(s.Interim)
+		h.Del("Link")
 	}
 	if s.Trailer != "" {
 		h.Set("Trailer", "X-Sum")
